@@ -4,7 +4,7 @@ in scratch worktrees (suite passes with the patch, demo fails with it and passes
 import json, os, shutil, subprocess, sys
 from concurrent.futures import ThreadPoolExecutor
 
-SRCS = [("/tmp/wt", ""), ("/tmp/wt2", "2")]
+SRCS = [("/tmp/wt", ""), ("/tmp/wt2", "2"), ("/tmp/wt3", "3")]
 DST = "/verif/seeded"
 BASE_CMD = ["/venv/bin/python", "-m", "pytest", "-q", "-p", "no:cacheprovider", "--timeout=900", "-x"]
 
@@ -73,7 +73,7 @@ def main():
                     note = os.path.join(out, f"note{x}.md")
                     if os.path.exists(note):
                         shutil.copy(note, os.path.join(d, "note.md"))
-                    json.dump({"id": sid, "property": c, "source": "independent sub-agent given only the property text and a scratch worktree" + (" (second wave, on the tree with the fix: commits)" if suffix else ""),
+                    json.dump({"id": sid, "property": c, "source": "independent sub-agent given only the property text and a scratch worktree" + (" (later wave, on the tree with the fix: commits)" if suffix else ""),
                                "needs_to_manifest": open(note).read()[:1500] if os.path.exists(note) else "", "verified": False}, open(os.path.join(d, "meta.json"), "w"), indent=1)
                 ids.append(sid)
     ids = [i for i in ids if not json.load(open(os.path.join(DST, i, "meta.json"))).get("status")]
